@@ -536,7 +536,8 @@ def cmd_selftest(prop, runs):
         for workers in (16, 3):
             tmpdir = os.path.join(BUILD, 'tmp', f'st.{prop}.{os.getpid()}.{workers}')
             os.makedirs(tmpdir, exist_ok=True)
-            leg = Leg(prop, l['engine'], l['config'], l.get('variant', ''), runs)
+            nruns = min(runs, l['runs'][0])   # a leg whose runs take seconds (C10 huge) is tested at its quick size
+            leg = Leg(prop, l['engine'], l['config'], l.get('variant', ''), nruns)
             run_leg(leg, 1, 'quick', tmpdir, digests=True, workers=workers)
             d = {}
             for f in os.listdir(tmpdir):
@@ -548,7 +549,7 @@ def cmd_selftest(prop, runs):
             res.append(d)
         diff = [i for i in res[0] if res[0][i] != res[1].get(i)]
         print(f'selftest {prop} {leg.label()}: {len(res[0])} runs x2, mismatches={len(diff)}')
-        bad += len(diff) + (len(res[0]) != runs)
+        bad += len(diff) + (len(res[0]) != nruns)
     return 2 if bad else 0
 
 
